@@ -154,6 +154,56 @@ pub fn run<G: AffineRepr>(curve: &str, ci: u64, seed: u64, tier: &str, out: &mut
             samples.push((prog, pr.commitments.clone(), proof));
         }
     }
+    // identity-pattern sweep: every one of the 27 (keep / identity / other valid point) patterns on the three second-phase
+    // slots, every single and every pair of identity placements on the 11 fixed points, on every sample circuit,
+    // through verify AND through batch_verify (alone, and next to an honest member)
+    {
+        let bp8i = BulletproofGens::<G>::new(8, 1);
+        for (si, (prog, comms, proof)) in samples.iter().enumerate() {
+            let mut pats: Vec<(String, Vec<(usize, u8)>)> = vec![];
+            for m in 0..27usize {
+                let st = [m % 3, (m / 3) % 3, (m / 9) % 3];
+                pats.push((format!("second{}{}{}", st[0], st[1], st[2]), (0..3).map(|j| (3 + j, st[j] as u8)).collect()));
+            }
+            for i in 0..11usize { pats.push((format!("id{}", i), vec![(i, 1)])); }
+            for i in 0..11usize { for j in (i + 1)..11 { pats.push((format!("id{}_{}", i, j), vec![(i, 1), (j, 1)])); } }
+            for (name, edits) in pats {
+                let mut parts = proof_parts(proof);
+                for (idx, st) in &edits {
+                    match st { 1 => parts.points[*idx] = G::zero(), 2 => parts.points[*idx] = filler, _ => {} }
+                }
+                let p2 = match proof_from_parts(&parts) { Some(p) => p, None => continue };
+                mark(&format!("idpat:sample={},pattern={}", si, name), &[]);
+                let code_v = verify_once::<G>(prog, comms, &p2, &pc, &bp8i);
+                let mut codes_b = vec![];
+                for with_honest in [false, true] {
+                    let r = catch_unwind(AssertUnwindSafe(|| {
+                        let mut ts: Vec<Transcript> = (0..2).map(|_| Transcript::new(b"hostile")).collect();
+                        let mut vs = vec![];
+                        let members: Vec<&R1CSProof<G>> = if with_honest { vec![proof, &p2] } else { vec![&p2] };
+                        for (p, t) in members.into_iter().zip(ts.iter_mut()) {
+                            let mut v = Verifier::new(t);
+                            let l1: EvLog = Default::default();
+                            let l2: EvLog = Default::default();
+                            let mut cix = 0;
+                            for op in prog {
+                                match op {
+                                    COp::Commit(..) => { v.commit(comms[cix]); cix += 1; }
+                                    _ => { apply_cop(&mut v, op, &l1, &l2); }
+                                }
+                            }
+                            vs.push((v, p));
+                        }
+                        let mut brng = ChaChaRng::seed_from_u64(si as u64);
+                        batch_verify(&mut brng, vs, &pc, &bp8i)
+                    }));
+                    codes_b.push(match r { Ok(Ok(())) => 0, Ok(Err(e)) => err_code(&e), Err(_) => 99 });
+                }
+                let _ = writeln!(out, "IDPAT {} {} {} {} {} {}", curve, si, name, code_v, codes_b[0], codes_b[1]);
+            }
+        }
+    }
+    eprintln!("idpat {:?}", t0.elapsed());
     eprintln!("grid {:?}", t0.elapsed());
     // batches of hostile shapes
     let bp8 = BulletproofGens::<G>::new(8, 1);
